@@ -39,8 +39,11 @@ META = dict(
                 "further steps from a reduced one. Rotations are compared with tolerance on every embedding. The scale "
                 "class of the embedding (coordinates >= 10 / cells <= 1e-10) is part of every violation key because "
                 "Mesh.is_aligned used an absolute tolerance until the fix of D18 (a relapse is then reported per scale class). Trusted: TLC, harness/tlaval.py, the "
-                "embedding/projection adapter, h5py/json."),
-    technique="TLA+ lattice model (Lattice.tla, C14.tla) + TLC exhaustive; spec states replayed into code; code traces validated by TLC (C14Trace.tla)",
+                "embedding/projection adapter, h5py/json. "
+                "Beyond the bounds: spec/C14Core.tla - Apalache proves that inside + aligned + a whole positive number of cells is an inductive "
+                "invariant of translation, scaling by any non-zero integer factor about any point and the half turn on the 1-d integer "
+                "lattice with unbounded coordinates (2 obligations, about 5 s each; reported in the evidence)."),
+    technique="TLA+ lattice model (Lattice.tla, C14.tla) + TLC exhaustive; spec states replayed into code; code traces validated by TLC (C14Trace.tla); Apalache inductive invariant of the unbounded 1-d core (C14Core.tla)",
     design_ref="DESIGN.md section 7 C14",
 )
 
@@ -772,6 +775,9 @@ def run(ctx):
     df = core.import_library()
     _SCRATCH[0] = ctx.scratch
     embs = embed.for_tier(ctx.tier, ctx.seed) + [EIGHTH]
+    # the unbounded integer core (spec/C14Core.tla): Apalache discharges the inductive invariant
+    from .. import apalache
+    apalache.run_stage(ctx, module="C14Core.tla", claim=apalache.C14_CLAIM)
     r = ctx.model("MC_C14", f"C14_{ctx.tier}.cfg", dump=True)
     if r.ok:
         with open(r.dump) as fh:
